@@ -65,5 +65,13 @@ except Exception:
 meta['needs_to_manifest'] = notes[:1500]
 meta['what_was_run'] = ['git apply patch.diff on a fresh worktree of /repo HEAD', 'demo.py with PYTHONPATH=<patched>/src and with /repo/src',
                         './check <prop> quick with VERIF_REPO_SRC=<patched>/src for: ' + ', '.join(props)]
+# a change that later repairs have made stale keeps the record of the tree it was written for
+try:
+    prev = json.load(open(os.path.join(dst, 'meta.json')))
+except Exception:
+    prev = None
+if prev and prev.get('status_on_final_tree') and (not meta.get('patch_applies') or not meta.get('demo_confirms')):
+    prev['rechecked_on'] = {'repo_head': meta['repo_head'], 'patch_applies': meta.get('patch_applies'), 'demo_confirms': meta.get('demo_confirms')}
+    meta = prev
 json.dump(meta, open(os.path.join(dst, 'meta.json'), 'w'), indent=1)
 print('stored', dst, 'caught_by', meta.get('caught_by'))
